@@ -90,6 +90,13 @@ CLAIMS = {
             'path tree of the real functions exhausted for all short ASCII strings and positions.', '§3 C19'),
 }
 
+CLAIMS['C20'] = ('bounded symbolic execution (CrossHair/z3) of Config/merged_data with symbolic layer presence bits and values, solver-chosen key and '
+                 'syntax; expand() observation with layer assignments as selectors',
+                 'For every key of the pools (defined only in built-in defaults / also in a type default / also in a syntax default), every '
+                 'known syntax of both types plus xhtml and unknown names, and every subset of the overridable layers with arbitrary values: '
+                 'the resolved value comes from the most specific layer, other keys keep their built-in value, built-in tables and caller '
+                 'dictionaries are unchanged; the same order is observed through expand() output.', '§3 C20')
+
 NOT_YET = {}
 
 
